@@ -1,5 +1,5 @@
 """C08 — Check enforces rule applicability and mutual consistency, order-independently."""
-import itertools, json
+import itertools, json, os
 import vcommon as vc
 
 EX = {"string": '"abc"', "integer": "5", "float": "5.5", "boolean": "true", "null": "null", "array": None, "object": None}
@@ -50,7 +50,7 @@ def run_checks(ctx, items):
 
 
 def run(ctx):
-    st = vc.prepare(ctx, need_model=False)
+    st = vc.prepare(ctx)
     if not st["impl"]:
         ctx.report("harness failed to build: " + json.dumps(st["logs"])[:1500], "build", st["logs"], no_input=True)
         return
@@ -176,6 +176,28 @@ def run(ctx):
                 ctx.report("rule order changes the verdict on a %s: %r gives %s but %r gives %s" % (kind, perm_items[a][1][:120], res[a], perm_items[i][1][:120], res[i]),
                            "c08perm:" + kind + "|" + "|".join(sorted(rs)), {"kind": kind, "rules": rs, "schema_1": perm_items[a][1], "result_1": res[a], "schema_2": perm_items[i][1], "result_2": res[i]},
                            case=(kind, rs))
+    # ---- the Coq model of the rule pipeline (Schema/RulePipeline.v: loader -> compileNode -> allOf -> checker for one annotated node) and the declarative
+    # statement (RulePipelineSpec.v spec_ok) against the library: tools/rules_difftest.py generates single rules / pairs / sets under all orders ----
+    import re, subprocess, sys
+    args = [sys.executable, os.path.join(vc.ROOT, "tools", "rules_difftest.py"), "--seed", str(ctx.seed), "--spec"] + (["--quick"] if quick else [])
+    pr = subprocess.run(args, capture_output=True, text=True, timeout=3600)
+    m = re.search(r"TOTAL cases=(\d+) verdict_mismatches=(\d+) code_mismatches=(\d+) unexpected_outputs=(\d+) order_dependent_groups=(\d+)", pr.stdout)
+    sp = re.findall(r"SPEC \((\w+)\): compared (\d+), skipped (\d+), model/spec disagreements: (\d+)", pr.stdout)
+    if pr.returncode != 0 or not m:
+        ctx.report("the rule-pipeline difftest did not run: %s" % (pr.stderr[-400:] or pr.stdout[-400:]), "c08pipe-run", {"stdout": pr.stdout[-2000:], "stderr": pr.stderr[-2000:]}, no_input=True)
+    else:
+        tot, vm, cm, uo, og = map(int, m.groups())
+        ctx.evaluations += tot
+        ctx.extra["rule_pipeline_model"] = {"cases": tot, "verdict_mismatches": vm, "code_mismatches": cm, "unexpected_outputs": uo, "order_dependent_groups": og,
+                                            "spec": [{"entry": e, "compared": int(c), "skipped": int(k), "disagreements": int(d)} for e, c, k, d in sp]}
+        if og:
+            first = [l for l in pr.stdout.splitlines() if l.startswith("IMPLEMENTATION VERDICT DEPENDS ON ORDER")][:1]
+            ctx.report("the verdict of Check depends on the order of the rules: %s" % (first[0][:300] if first else ""), "c08pipe-order", {"output": pr.stdout[-3000:]}, case=("pipeline", []))
+        if vm or uo:
+            lines_ = [l for l in pr.stdout.splitlines() if "impl=" in l and "model=" in l][:5]
+            ctx.report("Check and the Coq model of the rule pipeline disagree on %d verdict(s): %s" % (vm + uo, " ;; ".join(x[:200] for x in lines_)), "c08pipe-verdict", {"output": pr.stdout[-4000:]}, no_input=True)
+        if any(int(d) for _, _, _, d in sp):
+            ctx.report("the pipeline model and the declarative statement (spec_ok) disagree inside the theorem's scope", "c08pipe-spec", {"output": pr.stdout[-4000:]}, no_input=True)
     ctx.extra["permutation_groups"] = len(groups)
     ctx.extra["permutations_run"] = len(perm_items)
     ctx.samples.append({"schema": perm_items[len(perm_items) // 2][1], "result": res[len(perm_items) // 2]})
